@@ -347,7 +347,19 @@ func runPart(prop, tier string, seed uint64, p part, budgetS int) *partResult {
 	}
 	wg.Wait()
 	if len(infra) > 0 {
-		die(2, "engine trouble (not a verdict):\n%s", strings.Join(infra, "\n---\n"))
+		// a worker process died. If another worker found a violation, that finding
+		// stands on its own (it is replayed in a fresh process before it is
+		// reported); the crash is reported next to it. Otherwise: no verdict.
+		anyFound := false
+		for _, st := range pr.Workers {
+			if st != nil && st.Found != nil {
+				anyFound = true
+			}
+		}
+		if !anyFound {
+			die(2, "engine trouble (not a verdict):\n%s", strings.Join(infra, "\n---\n"))
+		}
+		fmt.Fprintf(os.Stderr, "vcheck: %d worker process(es) died (the library keeps state across runs, or crashed the process); a violation found by another worker is handled below:\n%s\n", len(infra), tail(infra[0], 1500))
 	}
 	return pr
 }
@@ -429,7 +441,11 @@ func handleViolation(f *found, race bool) string {
 	min := filepath.Join(scratch, "min.json")
 	text, err := engineMode(f.Engine, false, "shrink", in, min, "SIM_BUDGET_S="+envOr("VERIF_SHRINK_S", "60"))
 	if err != nil {
-		die(2, "shrinking failed (determinism trouble in the machinery, not a verdict):\n%s", tail(text, 4000))
+		// the shrinker runs many candidates in one process; a library that keeps
+		// state across runs (a package-level cache, goroutines that outlive a run)
+		// can kill that process. The unminimised finding is then replayed as it is.
+		fmt.Fprintf(os.Stderr, "vcheck: shrinking failed, the finding is reported unminimised:\n%s\n", tail(text, 1500))
+		os.WriteFile(min, b, 0o644)
 	}
 	rp := filepath.Join(scratch, "replay.json")
 	text, err = engineMode(f.Engine, false, "replay", min, rp)
